@@ -147,8 +147,8 @@ def gen_behaviours(wd, seed, tier, ev):
     behs = []
     rng = random.Random(seed)
     q = tier == "quick"
-    ncex = 24 if q else 300
-    nsim = 60 if q else 1000
+    ncex = 24 if q else 150
+    nsim = 60 if q else 600
     cov = {}
     fams = [("WideColumnCache", derive_cfg(wd, "WideColumnCache_Cex.cfg", **({"MaxOps": 2} if q else {})),
              "WideColumnCache_Gen.cfg", False),
@@ -158,7 +158,7 @@ def gen_behaviours(wd, seed, tier, ev):
              "KeyOfSetCache_GenL.cfg", True)]
     for mod, cexcfg, gencfg, scaled in fams:
         if scaled:
-            ncex_f, nsim_f = (8, 12) if q else (80, 150)
+            ncex_f, nsim_f = (8, 12) if q else (40, 80)
         else:
             ncex_f, nsim_f = ncex, nsim
         r = vp.tlc(mod, cfg=cexcfg, workers=4, timeout=1500, extra=["-continue"], check_ok=False, xmx="6g")
@@ -308,15 +308,21 @@ def classify(wd, name, runs, is_set, timeout=900):
     return True, {x["id"]: set(x["tags"]) for x in res["runs"]}, r
 
 
-def classify_all(wd, name, runs, is_set, stats):
-    """Per-run classification: one TLC run for all; bisect when it is rejected.
-    Returns {run id: None (rejected) | set(tags)}."""
+def classify_all(wd, name, runs, is_set, stats, timeout=600):
+    """Per-run classification of a chunk: one TLC run for all; bisect when it is
+    rejected or too slow.  Returns {run id: None (rejected) | set(tags)}."""
     out = {}
     if not runs:
         return out
-    acc, tags, r = classify(wd, name, runs, is_set)
-    stats["m_tlc_runs"] = stats.get("m_tlc_runs", 0) + 1
-    stats["m_states"] = stats.get("m_states", 0) + r["distinct"]
+    try:
+        acc, tags, r = classify(wd, name, runs, is_set, timeout=timeout)
+        stats["m_tlc_runs"] = stats.get("m_tlc_runs", 0) + 1
+        stats["m_states"] = stats.get("m_states", 0) + r["distinct"]
+    except vp.ToolError as e:
+        if len(runs) == 1 or "timeout" not in str(e):
+            raise
+        acc, tags = False, {}
+        stats["m_timeouts_split"] = stats.get("m_timeouts_split", 0) + 1
     if acc:
         for ru in runs:
             out[ru[0]["id"]] = tags.get(ru[0]["id"], set())
@@ -325,9 +331,12 @@ def classify_all(wd, name, runs, is_set, stats):
         out[runs[0][0]["id"]] = None
         return out
     h = len(runs) // 2
-    out.update(classify_all(wd, name + "a", runs[:h], is_set, stats))
-    out.update(classify_all(wd, name + "b", runs[h:], is_set, stats))
+    out.update(classify_all(wd, name + "a", runs[:h], is_set, stats, timeout))
+    out.update(classify_all(wd, name + "b", runs[h:], is_set, stats, timeout))
     return out
+
+
+CHUNK = 25
 
 
 def renumber(runs):
@@ -360,16 +369,20 @@ def verdict_of(wd, name, events, verdict, ev, behaviours=None, seed=0):
     fams = {}
     for fam, is_set in (("wide", False), ("set", True)):
         fams[fam] = (is_set, [r for r in failing if (r[0].get("map") == "set") == is_set])
-    # the two families are validated by two TLC processes (1 worker each) side by side
+    # chunks of failing runs are validated by up to three TLC processes (1 worker each)
     import concurrent.futures as cf
-    fstats = {fam: {} for fam in fams}
-    with cf.ThreadPoolExecutor(max_workers=2) as ex:
-        futs = {fam: ex.submit(classify_all, wd, f"{name}-{fam}", fr, is_set, fstats[fam])
-                for fam, (is_set, fr) in fams.items()}
-        results = {fam: f.result() for fam, f in futs.items()}
-    for st in fstats.values():
-        for k, v in st.items():
-            mstats[k] = mstats.get(k, 0) + v
+    jobs = []
+    for fam, (is_set, fr) in fams.items():
+        for ci in range(0, len(fr), CHUNK):
+            jobs.append((fam, is_set, ci // CHUNK, fr[ci:ci + CHUNK], {}))
+    results = {fam: {} for fam in fams}
+    with cf.ThreadPoolExecutor(max_workers=3) as ex:
+        futs = [(fam, st, ex.submit(classify_all, wd, f"{name}-{fam}{ci}", chunk, is_set, st))
+                for fam, is_set, ci, chunk, st in jobs]
+        for fam, st, f in futs:
+            results[fam].update(f.result())
+            for k, v in st.items():
+                mstats[k] = mstats.get(k, 0) + v
     for fam, (is_set, fr) in fams.items():
         res = results[fam]
         mstats["runs_classified"] = mstats.get("runs_classified", 0) + len(fr)
